@@ -20,6 +20,7 @@ class SourceModule(Object):
         self.filename = filename
         self.mtime = getmtime(filename)
         self.declared_at = 1, 0
+        self._analysing = False
 
     def __repr__(self):
         # type: () -> str
@@ -40,7 +41,15 @@ class SourceModule(Object):
     @property
     def _attrs(self):
         # type: () -> dict[str, Object | Name]
-        return self.scope.exported_names  # type: ignore[return-value]
+        if self._analysing:
+            # reached again through an import cycle while the module is being
+            # analysed: like a partially initialised module it offers nothing yet
+            return {}
+        self._analysing = True
+        try:
+            return self.scope.exported_names  # type: ignore[return-value]
+        finally:
+            self._analysing = False
 
 
 class ImportedModule(Object):
